@@ -22,7 +22,7 @@ CHECKS = {
             'parse(format(x)) == x for all 2^32 coordinates and timestamps (thorough; strided plus complete boundary blocks in quick); every '
             'string over {0-9 . - + e E space x} up to length 5/7 and every exponent -99999..99999 through set_lon/set_lat and the partial '
             'variants against exact decimal rounding (ties accept either neighbour); timestamp field sweeps and corruptions against a proleptic '
-            'Gregorian reference; integer attribute parsers at every type boundary. Inputs sit in exact-size heap blocks so ASan sees reads past the NUL.',
+            'Gregorian reference, through Timestamp(const char*) and the strict OSMObject::set_timestamp(const char*); integer attribute parsers at every type boundary. Inputs sit in exact-size heap blocks so ASan sees reads past the NUL.',
             'Trusted: the digit-string arithmetic and calendar code in harness/c13_numbers.cpp. Must-accept class is conservative (documented digit '
             'limits, no "+"); 2^32-1 for version/uid/changeset is not judged because the shipped unit tests pin it as rejected; 29 Feb in non-leap '
             'years and instants outside the uint32 window are not judged.',
@@ -85,7 +85,7 @@ CHECKS = {
     'C06': ('exploration', 'metamorphic oracle (one-piece run of the same bytes) with a piece-delivering Decompressor registered through CompressionFactory; real fd decompressors with tiny input buffers and wrapped short read(2)s (ASan/UBSan builds)',
             'For seed files in XML, osc, PBF (dense/plain/locations-on-ways), OPL and o5m, valid and truncated: every single cut and every pair of cuts for files up to '
             '90 (quick) / 256 (thorough) bytes, fixed piece sizes {1,2,3,5,7,8,9,10,11,4095,4096,4097}, seeded random cut sequences; header, objects or error type and '
-            'message must equal the one-piece run. The real plain/gzip/bzip2 fd paths run with input_buffer_size 1/7/4096 and read(2) returning 1..n bytes.',
+            'message must equal the one-piece run. The real plain/gzip/bzip2 fd paths run with input_buffer_size 1/7/4096 and read(2) returning 1..n bytes; the same byte stream also as 2-5 gzip members / bzip2 streams incl. empty ones.',
             'Trusted: nothing but the equality oracle. Across the memory and fd code paths only success/failure, error type and data are compared (their error texts differ by design).',
             'DESIGN.md section 2 C06'),
     'C10': ('exploration', 'constructive generator with known validity + exact integer geometry oracle (__int128 predicates) on every produced area; metamorphic variants (ASan/UBSan build)',
@@ -151,7 +151,7 @@ CHECKS = {
             'A fault counts only when it demonstrably fired ((INJECTED) in the strace log, offset below the full size, mock call counter); other runs are inconclusive. Liveness as bounded progress.',
             'DESIGN.md section 2 C08'),
     'C03': ('exploration', 'coverage-guided fuzzing (clang libFuzzer + ASan + UBSan) and deterministic/structure-aware mutation sweeps (gcc ASan + UBSan, NDEBUG and assertions on) through the real Reader, with exact-fit traversal of everything delivered',
-            'Every prefix of every seed file, single-byte substitutions at every offset, ~500 crafted slot mutations (string lengths 0..70000 and embedded NULs in every PBF string slot, '
+            'Every prefix of every seed file, single-byte substitutions at every offset, ~1700 crafted inputs (every order of child elements in XML, valid files whose objects sweep across the decoder buffer capacities, o5m reference-table fill, (string lengths 0..70000 and embedded NULs in every PBF string slot, '
             'mismatching packed-array lengths, hostile framing, structurally odd XML, OPL escapes, o5m references and lengths; each also gzip-wrapped), seeded structure-aware mutations (PBF '
             're-framed after mutating the uncompressed blob, payload mutated then re-compressed, compressed bytes mutated) in both build modes, plus libFuzzer targets for 10 format/wrapper '
             'combinations. Accepted: objects or an exception derived from std::exception. Violations: any ASan report, fatal UBSan class, signal, abort/assert, other exception type, hang, or a '
